@@ -194,8 +194,20 @@ func genLabel(rng *rand.Rand, n int) string {
 // genNameLabel returns a label that is mostly valid with occasional defects.
 func genNameLabel(rng *rand.Rand) string {
 	n := pick(rng, 1, 1, 2, 3, 3, 5, 8, 62, 63, 64, 0, 16, 17, 15)
+	if v, ok := dictInt(rng, 0, 300); ok && rng.IntN(12) == 0 {
+		// a length next to an integer constant of the source
+		n = int(v)
+	}
 	l := genLabel(rng, n)
 	switch rng.IntN(16) {
+	case 10:
+		// a string literal of the source as a label (dots and all)
+		if t, ok := dictTok(rng); ok {
+			l = strings.Trim(t, ".")
+			if rng.IntN(3) == 0 {
+				l = t
+			}
+		}
 	case 0:
 		l = "_" + l
 	case 1:
